@@ -419,6 +419,84 @@ def d5(run: Run, prog: Program):
                 # `self` may be spelled differently in the two methods
                 sl = _rename(sl, sn, "self")
                 out.add(ast.unparse(sl).replace(" ", ""))
+        # selection delegated to a private helper that gets the observable (or a
+        # copy of it): the helper's subscripts of that parameter, on the branches
+        # the call's constant arguments select
+        copies = set(obs)
+        for a in ast.walk(m.node):
+            if isinstance(a, ast.Assign) and isinstance(a.targets[0], ast.Name) and \
+                    isinstance(a.value, ast.Call) and a.value.args and \
+                    ast.unparse(a.value.func) in ("np.array", "np.asarray", "np.copy") and \
+                    ast.unparse(a.value.args[0]) in obs:
+                copies.add(a.targets[0].id)
+        for c in ast.walk(m.node):
+            if not (isinstance(c, ast.Call) and isinstance(c.func, ast.Attribute) and
+                    isinstance(c.func.value, ast.Name) and c.func.value.id == sn and
+                    c.func.attr.startswith("_") and not c.func.attr.startswith("__")):
+                continue
+            h = prog.lookup(cd, c.func.attr)
+            if h is None or len(h.params) < 2:
+                continue
+            bound = {}
+            hp = h.params[1:]
+            for p_, a_ in zip(hp, c.args):
+                bound[p_] = a_
+            for k in c.keywords:
+                if k.arg in hp:
+                    bound[k.arg] = k.value
+            for p_, d_ in h.defaults().items():
+                bound.setdefault(p_, d_)
+            series = [p_ for p_, a_ in bound.items() if ast.unparse(a_) in copies]
+            if len(series) != 1:
+                continue
+            consts = {p_: a_.value for p_, a_ in bound.items()
+                      if isinstance(a_, ast.Constant)}
+            hsn = h.params[0]
+
+            def taken(stmts):
+                """statements reached under the constant arguments"""
+                out_ = []
+                for st in stmts:
+                    if isinstance(st, ast.If):
+                        t = st.test
+                        neg = isinstance(t, ast.UnaryOp) and isinstance(t.op, ast.Not)
+                        nm = t.operand if neg else t
+                        if isinstance(nm, ast.Name) and nm.id in consts:
+                            v = bool(consts[nm.id]) != neg
+                            sub = taken(st.body if v else st.orelse)
+                            out_ += sub
+                            if sub and isinstance(sub[-1], ast.Return):
+                                return out_
+                            continue
+                    out_.append(st)
+                    if isinstance(st, ast.Return):
+                        return out_
+                return out_
+            hl = {}
+            for st in taken(h.node.body):
+                for n in ast.walk(st):
+                    if isinstance(n, (ast.For, ast.comprehension)) and \
+                            isinstance(n.target, ast.Name):
+                        it = inline_locals(h.node, n.iter)
+                        src = ast.unparse(_rename(it, hsn, "self")).replace(" ", "")
+                        hl[n.target.id] = f"EACH[{src}]"
+            for st in taken(h.node.body):
+                for sub in ast.walk(st):
+                    if isinstance(sub, ast.Subscript) and isinstance(sub.ctx, ast.Load) \
+                            and ast.unparse(sub.value) == series[0]:
+                        sl = inline_locals(h.node, sub.slice)
+                        if isinstance(sl, ast.Tuple):
+                            elts = list(sl.elts)
+                            while len(elts) > 1 and isinstance(elts[-1], ast.Slice) and \
+                                    elts[-1].lower is None and elts[-1].upper is None \
+                                    and elts[-1].step is None:
+                                elts.pop()
+                            sl = elts[0] if len(elts) == 1 else \
+                                ast.Tuple(elts=elts, ctx=ast.Load())
+                        for v, tok in hl.items():
+                            sl = _rename(sl, v, tok)
+                        sl = _rename(sl, hsn, "self")
+                        out.add(ast.unparse(sl).replace(" ", ""))
         sel[mname] = (m, out)
     (pm, a), (an, b) = sel["phase_mean"], sel["anomaly"]
     if not a or not b:
